@@ -2,9 +2,6 @@
     Statements only; every proof is [exact <lemma>].
 
     NOT YET PROVED (stated here so that the gap is visible):
-    - map_by_val / from_fn_by_val with an always-value closure evaluate to [MBuilt] of std's
-      map (the converse direction of C11_map_by_val_built: "all values -> Built"); only the
-      safety direction (Built -> full, in order, produced by consecutive evaluations) is proved.
     - Clone of ArrayBuilder / ArrayConsumer (b_clone, c_clone, incl. a panicking T::clone)
       preserves the representation invariant; it is covered by the correspondence run only.
     - The miniature iterator-DSL loop (stages_step / chain_items) is a harness-side model
@@ -136,6 +133,20 @@ Theorem C11_from_fn_by_val_built : forall clo N,
   end.
 Proof. exact from_fn_by_val_built. Qed.
 
+(** ... and with a body that always evaluates to a value they complete and ARE std's map /
+    from_fn; every input goes to the closure once, in order, every output to the caller *)
+Theorem C11_map_by_val_eq_std : forall clo (g : nat -> Z -> Z) ids,
+  (forall j x, clo j x = OValue (g j x)) ->
+  map_by_val clo ids =
+    (MBuilt (std_map g ids), map Hand ids ++ map Hand (std_map g ids), []).
+Proof. exact map_by_val_eq_std. Qed.
+Theorem C11_from_fn_by_val_eq_std : forall clo (g : nat -> Z -> Z) N,
+  (forall j x, clo j x = OValue (g j x)) ->
+  from_fn_by_val clo N =
+    (MBuilt (map (fun j => g j (Z.of_nat j)) (seq 0 N)),
+     map Hand (map (fun j => g j (Z.of_nat j)) (seq 0 N)), []).
+Proof. exact from_fn_by_val_eq_std. Qed.
+
 Print Assumptions C11_map_built_produced.
 Print Assumptions C11_map_built_full.
 Print Assumptions C11_map_built_length.
@@ -156,3 +167,5 @@ Print Assumptions C11_builder_underfill_panics.
 Print Assumptions C11_builder_invariant.
 Print Assumptions C11_map_by_val_built.
 Print Assumptions C11_from_fn_by_val_built.
+Print Assumptions C11_map_by_val_eq_std.
+Print Assumptions C11_from_fn_by_val_eq_std.
